@@ -9,3 +9,18 @@ def sel(*bits):
         if b:
             v += 1 << k
     return v
+
+
+def concrete(fn, *args, **kwargs):
+    """Run fn natively (CrossHair's interception suspended).  Only for calls whose
+    arguments are already concrete on the current path (selectors after branching):
+    nothing symbolic may cross this boundary.  Tier-S harnesses use it so that a whole
+    ExcelModel is built and calculated at native speed on each explored path."""
+    try:
+        from crosshair.tracers import NoTracing, is_tracing
+    except ImportError:        # plain interpreter (replay)
+        return fn(*args, **kwargs)
+    if not is_tracing():
+        return fn(*args, **kwargs)
+    with NoTracing():
+        return fn(*args, **kwargs)
